@@ -24,6 +24,7 @@ class Report:
         self.explanation = ""
         self.min_counts = {}    # rule -> minimal number of instances (frozen inventory)
         self.trusted_base = []
+        self.write_files = True
 
     # ---------------------------------------------------------------- obligations
     def ob(self, rule, instance, ok, detail="", key=None, nontrivial=True, sample=None):
@@ -71,8 +72,9 @@ class Report:
         for o in viol:
             h = hashlib.sha1(o["key"].encode()).hexdigest()[:12]
             path = os.path.join(VERIF, "replays", "%s-%s.json" % (self.pid, h))
-            with open(path, "w") as fh:
-                json.dump({"property": self.pid, "obligation": o}, fh, indent=1)
+            if self.write_files:
+                with open(path, "w") as fh:
+                    json.dump({"property": self.pid, "obligation": o}, fh, indent=1)
             print("VIOLATION property=%s replay=%s" % (self.pid, path))
             print("  rule=%s instance=%s" % (o["rule"], o["instance"]))
             print("  %s" % o["detail"][:1500])
@@ -105,8 +107,9 @@ class Report:
             "coverage": cov, "assumptions": self.assumptions, "wall_s": round(time.time() - self.t0, 3),
             "violations": len(viol),
         }
-        with open(os.path.join(VERIF, "evidence", "%s.json" % self.pid), "w") as fh:
-            json.dump(ev, fh, indent=1, default=str)
+        if self.write_files:
+            with open(os.path.join(VERIF, "evidence", "%s.json" % self.pid), "w") as fh:
+                json.dump(ev, fh, indent=1, default=str)
         print("%s: %d obligations over %d rules, %d held, %d known findings, %d violations (%.2fs)" % (
             self.pid, n, len(by_rule), discharged, len(kf), len(viol), time.time() - self.t0))
         return 1 if viol else 0
